@@ -70,6 +70,12 @@ def random_spec(r: random.Random, idx: int) -> dict:
     spec = {"name": f"rand{idx}", "seed": r.randrange(1, 10 ** 6), "dim": dim, "box": r.choice(BOX),
             "fn": r.choice(FNS), "maximize": r.random() < 0.4, "levels": levels,
             "hibernation": r.random() < 0.5, "idlecheck": not lowmut}
+    if r.random() < 0.4:
+        spec["reports"] = True
+    if r.random() < 0.3:
+        spec["dump_at"] = r.choice([0, 1, 1, 2, 3])
+        if r.random() < 0.5:
+            spec["objective_form"] = "lambda"
     # global stop condition (only kinds that are guaranteed to end the run, or runs allowed to be cut)
     x = r.random()
     if x < 0.45:
